@@ -98,3 +98,14 @@ Definition lwe_phase (P b : Z) (nl : nat) (s : list Z) (flat : list Z) : Z :=
 (* the GLWE secret under which an LWE secret s (nl coefficients) is embedded: sigma_{-1}(s || 0) *)
 Definition lwe_embed (P : Z) (n : nat) (s : list Z) : list Z := sigmaZ P (-1) (firstn n (s ++ zeros n)).
 Definition zabs_wrap (P x : Z) : Z := Z.abs (wrap P x).
+
+(* rows of a GGLWE->GGSW (tensor) key generated through the public API (header key = tensor key, rank = key_rout; observation i =
+   dump of key i): key i, row r, input column j decrypts under s to s_i (x) s_j * 2^-((r+1) dsize b) with error at most bound 2^-k.
+   This ties the accessor GLWESecretTensor::at(i, j) used by the key generator to the producer glwe_secret_tensor_prepare. *)
+Definition tensor_rows_ok (ps : list Z) (vs : list (list Z)) : Z :=
+  let n := h_n ps in let P := prec ps in let r := h_key_rout ps in
+  let s := polys n (v vs 1) in
+  ob (forallb (fun i =>
+        keyrow_ok P n (h_key_b ps) (h_key_size ps) r r (h_dsize ps) (h_dnum ps) (h_bound ps * 2 ^ (P - h_key_k ps))
+                  (map (pmul (nth i s (pzero n))) s) s (obs ps vs i)) (seq 0 r)).
+
